@@ -131,6 +131,29 @@ func checkC06(c *Ctx) {
 	c.Assume("M-VERSION transcribes the feature table of the property statement", "declared versions with a leading 'v' are unspecified by the property: observed and counted, never judged")
 	dir := filepath.Join(c.Scratch, "files")
 	must(os.MkdirAll(dir, 0o755))
+	// size is no excuse: a YAML file of more than a MiB whose only version-gated feature
+	// sits in its last device
+	{
+		big := &specs.Spec{Version: "0.3.0", Kind: "vendor.com/cls"}
+		filler := strings.Repeat("x", 2000)
+		for n := 0; n < 700; n++ {
+			big.Devices = append(big.Devices, specs.Device{Name: fmt.Sprintf("d%d", n), ContainerEdits: specs.ContainerEdits{Env: []string{"F=" + filler}}})
+		}
+		big.Devices = append(big.Devices, specs.Device{Name: "last", ContainerEdits: specs.ContainerEdits{DeviceNodes: []*specs.DeviceNode{{Path: "/dev/x", HostPath: "/dev/null"}}}})
+		for _, enc := range []string{"yaml", "json"} {
+			for di, decl := range []string{"0.3.0", "0.4.0", "0.5.0"} {
+				big.Version = decl
+				path := filepath.Join(dir, "big."+enc)
+				must(os.WriteFile(path, specBytes(big, enc), 0o644))
+				_, rerr := cdi.ReadSpec(path, 0)
+				c.Count("readspec_files_of_more_than_a_mib", 1)
+				if (rerr == nil) != (di == 2) {
+					c.violation("big-file", "readspec", map[string]string{"declared": decl, "enc": enc}, fmt.Sprintf("ReadSpec of a %s file of more than a MiB declaring %s whose last device uses hostPath (0.5.0): err=%v", enc, decl, rerr), nil)
+				}
+				os.Remove(path)
+			}
+		}
+	}
 	// one case per (n, first-feature placement) to parallelise
 	var names []string
 	for n := 1; n <= maxN; n++ {
